@@ -12,6 +12,7 @@ for d in sorted(glob.glob(V + '/seeded/*/patch.diff')):
 for d in sorted(glob.glob(V + '/mutants/*.diff')):
     n = os.path.basename(d)[:-5]; items.append(('mutant', n, d, n.split('-')[0]))
 neutral = {k: v for k, v in json.load(open(V + '/mutants/NEUTRALISED.json')).items() if not k.startswith('_')} if os.path.exists(V + '/mutants/NEUTRALISED.json') else {}
+not_caught = {k: v for k, v in json.load(open(V + '/seeded/NOT_CAUGHT.json')).items() if not k.startswith('_')} if os.path.exists(V + '/seeded/NOT_CAUGHT.json') else {}
 rows = []
 from concurrent.futures import ThreadPoolExecutor
 jobs = []
@@ -38,4 +39,4 @@ with ThreadPoolExecutor(int(os.environ.get('MATRIX_JOBS', '4'))) as ex:
 if not only:
     with open(V + '/seeded/MATRIX.md', 'w') as f:
         f.write('# Which check catches which change (%s tier)\n\n| kind | change | check | exit | first violation |\n|---|---|---|---|---|\n' % tier)
-        for r in rows: f.write('| %s | %s | %s | %d | %s |\n' % (r[0], r[1], r[2], r[3], ('NEUTRALISED at HEAD: ' + neutral[r[1]]) if (r[1] in neutral and r[3] == 0) else r[4].replace('|', '/')))
+        for r in rows: f.write('| %s | %s | %s | %d | %s |\n' % (r[0], r[1], r[2], r[3], ('NEUTRALISED at HEAD: ' + neutral[r[1]]) if (r[1] in neutral and r[3] == 0) else ('NOT CAUGHT (documented): ' + not_caught[r[1]][:300]) if (r[1] in not_caught and r[3] == 0) else r[4].replace('|', '/')))
